@@ -82,6 +82,65 @@ def run_case(rep, rc, k, comps, pending):
         rep.count("runs:%d" % len(parts))
 
 
+def cli_chain_case(rep, rc, parts):
+    """The same chain through the command-line entry point, with ONE rolling continuation file that
+    every continued run reads and overwrites (`--continuation-file state.yml
+    --generate-continuation-file state.yml`), compared with a single CLI run of k iterations."""
+    import json as _json
+    import os
+    import shutil
+    import tempfile
+
+    from snowfakery.cli import generate_cli
+
+    text = recipes.recipe_yaml(rc)
+    k = sum(parts)
+    d = tempfile.mkdtemp(prefix="verif_c04cli_")
+    case = {"kind": "cli", "recipe": text, "parts": parts, "ast": rc}
+
+    def run(args):
+        try:
+            generate_cli.main(args, standalone_mode=False)
+            return None
+        except BaseException as e:  # noqa
+            if isinstance(e, (KeyboardInterrupt,)):
+                raise
+            return f"{type(e).__name__}: {str(e)[:200]}"
+
+    try:
+        rpath = os.path.join(d, "r.yml")
+        with open(rpath, "w") as f:
+            f.write(text)
+        one = os.path.join(d, "one.json")
+        err = run([rpath, "--reps", str(k), "--output-file", one])
+        rep.count("cli:unsplit:" + ("ok" if err is None else "error"))
+        if err is not None:
+            return
+        want = _json.load(open(one))
+        got = []
+        state = os.path.join(d, "state.yml")
+        for i, ki in enumerate(parts):
+            out = os.path.join(d, f"part{i}.json")
+            args = [rpath, "--reps", str(ki), "--output-file", out, "--generate-continuation-file", state]
+            if i > 0:
+                args += ["--continuation-file", state]
+            err = run(args)
+            if err is not None:
+                sig = "C04:continuation-save-fails:NicknameSlot" if "NicknameSlot" in err else \
+                    ("C04:split-fails:justonce-row-field" if justonce_row_fields(rc) else "C04:cli-rolling-continuation-fails")
+                rep.violation(sig, f"CLI run {i} of the chain {parts} with a rolling continuation file fails ({err}); the single run of {k} iterations completes",
+                              case, "ok", err)
+                return
+            got += _json.load(open(out))
+        if got != want:
+            sig = "C04:split-differs:justonce-row-field" if justonce_row_fields(rc) else "C04:cli-rolling-continuation-differs"
+            rep.violation(sig, f"CLI chain {parts} through one rolling continuation file differs from the single run", case,
+                          want[:3], got[:3])
+        rep.case({"recipe": text, "parts": parts, "cli": True}, nontrivial=len(parts) > 1 and len(want) >= 3)
+    finally:
+        shutil.rmtree(d, ignore_errors=True)
+
+
 def flush(rep, pending):
     res = common.model_batch([{"m": "l2.run", "recipe": c["ast"], "parts": c["parts"], "final_save": False} for c, _ in pending])
     for (case, chain), m in zip(pending, res):
@@ -105,6 +164,14 @@ def run(ctx, rep, findings):
         k = ctx.rng.randint(2, 3)
         run_case(rep, rc, k, [c for c in recipes.all_compositions(k) if len(c) > 1], pending)
         rep.count("family:persisted-values")
+    # the command-line entry point with one rolling continuation file
+    for i in range(ctx.scale(12, 150)):
+        rc = recipes.persist_case(ctx.rng) if i % 2 else recipes.L2Gen(ctx.rng).recipe()
+        if not continuation_safe(rc):
+            continue
+        k = ctx.rng.randint(2, 4)
+        comps = [c for c in recipes.all_compositions(k) if len(c) > 1]
+        cli_chain_case(rep, rc, ctx.rng.choice(comps))
     n = ctx.scale(220, 2500)
     kmax = 5 if ctx.tier == "thorough" else 4
     for i in range(n):
@@ -126,6 +193,9 @@ def run(ctx, rep, findings):
 
 
 def replay(case, rep):
+    if case.get("kind") == "cli":
+        cli_chain_case(rep, case["ast"], case["parts"])
+        return
     pending = []
     run_case(rep, case["ast"], sum(case["parts"]), [case["parts"]], pending)
     flush(rep, pending)
